@@ -67,6 +67,7 @@ PROP = {  # keyword in subject -> (property, what failed)
  "shares its slot with an epoch boundary block": ("C42", "synthetic Byron database 00150+00160: read_blocks_from_point(Specific(3240000, hash of the main block at slot-in-epoch 0 of epoch 150)) returned CannotFindBlock: iterate_till_point compared only the EBB, the first block of that slot"),
  "selects the blocking or non-blocking state": ("C24", "network2 txsubmission State::apply: [Init] + RequestTxIds(false, ..) went to TxIdsBlocking, the spec says TxIdsNonBlocking"),
  "client's Done while a blocking request": ("C24", "network2 txsubmission State::apply: [Init, RequestTxIds(true, ..)] + Done was rejected, the spec lets the client terminate there"),
+ "only the response to the query it sent": ("C23", "tx-monitor client: after RequestNextTx (or RequestHasTx / RequestSizeAndCapacity) recv_message() accepted the responses of the other two queries (one Busy state for three request kinds)"),
  "applies AwaitReply when it waits in CanAwait": ("C23", "send_request_next; request_or_await_next (or recv_while_must_reply) with AwaitReply injected returned Err(InvalidInbound), consumed the message and stayed in CanAwait"),
  "CostModels encodes": ("C06", "conway CostModels{unknown:{3:[1]}} encoded as a0 and decoded with unknown:{}"),
 }
